@@ -1,12 +1,15 @@
 use crate::core::PropertyDef;
 
+pub mod c01;
 pub mod c02;
+pub mod c03;
+pub mod catalogue;
 pub mod c05;
 pub mod c08;
 pub mod c08_lang;
 
 pub fn all() -> Vec<PropertyDef> {
-    vec![c02::def(), c05::def(), c08::def()]
+    vec![c01::def(), c02::def(), c03::def(), c05::def(), c08::def()]
 }
 
 pub fn lookup(id: &str) -> Option<PropertyDef> {
